@@ -465,7 +465,11 @@ func runC16(ctx *core.Ctx, pool *par.Pool) {
 		}
 		runs = append(runs, c16run{cfg, seedEmpty, crashAlphabet(true), d})
 	}
-	runs = append(runs, c16run{pagedrv.CfgB, seedOverflow, overflowAlphabet, depth + 1}, c16run{pagedrv.CfgA, seedOverflow, overflowAlphabet, depth + 1})
+	if ctx.Quick() {
+		runs = append(runs, c16run{pagedrv.CfgB, seedOverflow, overflowAlphabet, 4})
+	} else {
+		runs = append(runs, c16run{pagedrv.CfgB, seedOverflow, overflowAlphabet, depth}, c16run{pagedrv.CfgA, seedOverflow, overflowAlphabet, depth})
+	}
 	share := ctx.Budget() / time.Duration(len(runs))
 	for _, run := range runs {
 		cfg := run.cfg
